@@ -606,9 +606,171 @@ class C01(C.Check):
                     return n
         return n
 
+
+    # -----------------------------------------------------------------------------------------
+    # MultiDomain expressions (several (domain, target) groups inside one SumOperator, block-
+    # diagonal operators, null operators between sub-domains): not in the Coq model, decided on
+    # the implementation against NumPy block matrices.
+    # -----------------------------------------------------------------------------------------
+    def multi_build(self, e):
+        """expression -> (operator, dense 5x5 reference or None if an inverse does not exist).
+        keys a (2 pixels) and b (3 pixels); every sub-expression is an operator between
+        sub-MultiDomains, its reference is embedded into the full 5x5 matrix."""
+        import nifty.cl as ift
+        doms = {"a": ift.RGSpace(2), "b": ift.RGSpace(3)}
+        sl = {"a": slice(0, 2), "b": slice(2, 5)}
+        D = ift.MultiDomain.make(doms)
+        k = e[0]
+
+        def emb(key, m, key2=None):
+            M = np.zeros((5, 5), dtype=complex)
+            M[sl[key2 or key], sl[key]] = m
+            return M
+
+        if k == "atom":            # operator on one key: {key} -> {key}
+            _, key, kind, vals = e
+            n = doms[key].size
+            if kind == "scal":
+                op, m = ift.ScalingOperator(ift.DomainTuple.make(doms[key]), complex(*vals[0]) if vals[0][1] else vals[0][0]), complex(*vals[0]) * np.eye(n)
+            elif kind == "diag":
+                v = np.array([complex(*x) for x in vals[:n]])
+                v = v.real if np.all(v.imag == 0) else v
+                op, m = ift.DiagonalOperator(ift.Field.from_raw(doms[key], v)), np.diag(v)
+            else:
+                v = np.array([complex(*x) for x in vals[:n * n]]).reshape(n, n)
+                v = v.real if np.all(v.imag == 0) else v
+                op, m = ift.MatrixProductOperator(doms[key], v), v
+            return op.ducktape(key).ducktape_left(key), emb(key, m)
+        if k == "null":            # NullOperator {key} -> {key2}
+            _, key, key2 = e
+            return ift.NullOperator(ift.MultiDomain.make({key: doms[key]}), ift.MultiDomain.make({key2: doms[key2]})), np.zeros((5, 5), dtype=complex)
+        if k == "fscal":
+            c = complex(*e[1]) if e[1][1] else e[1][0]
+            return ift.ScalingOperator(D, c), complex(*e[1]) * np.eye(5)
+        if k == "block":           # BlockDiagonalOperator(D, {key: operator}), a missing key = identity
+            dct, M = {}, np.eye(5, dtype=complex)
+            for key, sub in zip("ab", e[1]):
+                if sub is None:
+                    continue
+                n = doms[key].size
+                if sub[0] == "scal":
+                    c = complex(*sub[1][0]) if sub[1][0][1] else sub[1][0][0]
+                    dct[key], m = ift.ScalingOperator(ift.DomainTuple.make(doms[key]), c), complex(*sub[1][0]) * np.eye(n)
+                else:
+                    v = np.array([complex(*x) for x in sub[1][:n]])
+                    v = v.real if np.all(v.imag == 0) else v
+                    dct[key], m = ift.DiagonalOperator(ift.Field.from_raw(doms[key], v)), np.diag(v)
+                M[sl[key], sl[key]] = m
+            return ift.BlockDiagonalOperator(D, dct), M
+        subs = [self.multi_build(x) for x in e[1:] if isinstance(x, list) and x and isinstance(x[0], str)]
+        ops = [x[0] for x in subs]
+        Ms = [x[1] for x in subs]
+        if any(m is None for m in Ms):
+            Ms = None
+        if k == "sum":             # signs in e[-1]
+            sg = e[-1]
+            op = ops[0] if not sg[0] else -ops[0]
+            for o, g in zip(ops[1:], sg[1:]):
+                op = op - o if g else op + o
+            return op, (None if Ms is None else sum((-m if g else m) for m, g in zip(Ms, sg)))
+        if k == "comp":
+            return ops[0] @ ops[1], (None if Ms is None else Ms[0] @ Ms[1])
+        if k == "adj":
+            return ops[0].adjoint, (None if Ms is None else Ms[0].conj().T)
+        if k == "neg":
+            return -ops[0], (None if Ms is None else -Ms[0])
+        if k == "scale":
+            c = complex(*e[1]) if e[1][1] else e[1][0]
+            return ops[0].scale(c), (None if Ms is None else complex(*e[1]) * Ms[0])
+        raise ValueError(k)
+
+    def multi_gen(self, rng, depth):
+        def vals(n):
+            return [cplx(DVALS[int(rng.integers(len(DVALS)))]) for _ in range(n)]
+        def atom(key):
+            kind = ["scal", "diag", "diag", "mat"][int(rng.integers(4))]
+            return ["atom", key, kind, [cplx(SCALARS[int(rng.integers(len(SCALARS)))])] if kind == "scal" else vals(9)]
+        def block():
+            subs = []
+            for key in "ab":
+                r = int(rng.integers(3))
+                subs.append(None if r == 0 else (["scal", [cplx(SCALARS[int(rng.integers(len(SCALARS)))])]] if r == 1 else ["diag", vals(3)]))
+            return ["block", subs]
+        def full_sum():
+            """a SumOperator D -> D with several (domain, target) groups"""
+            terms = [atom("a"), atom("b")]
+            for _ in range(int(rng.integers(0, 4))):
+                r = int(rng.integers(6))
+                terms.append(atom("ab"[int(rng.integers(2))]) if r <= 1 else block() if r <= 3 else
+                             ["fscal", cplx(SCALARS[int(rng.integers(len(SCALARS)))])] if r == 4 else
+                             ["null", "ab"[int(rng.integers(2))], "ab"[int(rng.integers(2))]])
+            order = rng.permutation(len(terms))
+            terms = [terms[i] for i in order]
+            return ["sum"] + terms + [[int(rng.integers(3) == 0) for _ in terms]]
+        if depth == 0:
+            return full_sum() if rng.integers(4) else block()
+        r = int(rng.integers(7))
+        if r <= 1:
+            return ["comp", self.multi_gen(rng, depth - 1), self.multi_gen(rng, depth - 1)]
+        if r == 2:
+            return ["adj", self.multi_gen(rng, depth - 1)]
+        if r == 3:
+            return ["neg", self.multi_gen(rng, depth - 1)]
+        if r == 4:
+            return ["scale", cplx(SCALARS[int(rng.integers(len(SCALARS) - 1))]), self.multi_gen(rng, depth - 1)]
+        a, b = self.multi_gen(rng, depth - 1), self.multi_gen(rng, depth - 1)
+        return ["sum", a, b, [0, int(rng.integers(2))]]
+
+    def multi_failure(self, e):
+        """None if the MultiDomain expression e acts as its block-matrix reference in the modes it advertises."""
+        import nifty.cl as ift
+        try:
+            op, M = self.multi_build(e)
+        except Exception as ex:
+            return "building the MultiDomain expression raised %s: %s" % (type(ex).__name__, str(ex)[:160])
+        doms = {"a": 2, "b": 3}
+        off = {"a": 0, "b": 2}
+
+        def dense(mode):
+            d, t = op._dom(mode), op._tgt(mode)
+            cols = np.zeros((5, 5), dtype=complex)
+            for key in d.keys():
+                for j in range(doms[key]):
+                    x = {kk: np.zeros(doms[kk], dtype=complex) for kk in d.keys()}
+                    x[key][j] = 1.
+                    y = op.apply(ift.MultiField.from_dict({kk: ift.Field.from_raw(d[kk], v) for kk, v in x.items()}), mode).asnumpy()
+                    for kk in t.keys():
+                        cols[off[kk]:off[kk] + doms[kk], off[key] + j] = y[kk]
+            return cols
+        for mode, R in ((1, M), (2, None if M is None else M.conj().T)):
+            if not (op.capability & mode):
+                return "a sum/chain of operators that all provide mode %d does not advertise it" % mode
+            try:
+                got = dense(mode)
+            except Exception as ex:
+                return "MultiDomain expression: advertised mode %d raises %s: %s" % (mode, type(ex).__name__, str(ex)[:160])
+            if R is not None and np.abs(got - R).max() > 1e-9 * (1 + np.abs(R).max()):
+                return "MultiDomain expression: mode %d differs from the block-matrix expression (max abs diff %.3g)" % (mode, np.abs(got - R).max())
+        return None
+
+    def multi_oracle(self, ctx, res):
+        rng = ctx.rng(41)
+        n = 0
+        todo = [c["expr"] for c in ctx.corpus() if c.get("cfg") == "multi"]
+        for i in range(60 if ctx.quick else 600):
+            todo.append(self.multi_gen(rng, int(rng.integers(0, 3))))
+        for e in todo:
+            n += 1
+            f = self.multi_failure(e)
+            if f:
+                res.add_failing({"what": f.split(":")[0][:60]}, f, {"cfg": "multi", "expr": e})
+                break
+        return n
+
     def oracle(self, ctx, res, hints, budget):
         nb = self.blockdiag_oracle(ctx, res)
         res.coverage["blockdiag_oracle_evaluations"] = nb
+        res.coverage["multidomain_oracle_evaluations"] = self.multi_oracle(ctx, res)
         n = 0
         for o in self.cases:
             w, leafcaps, leafmats, _ = self.worlds[o["cfg"]]
@@ -638,6 +800,8 @@ class C01(C.Check):
     def replay(self, ctx, rp):
         c01_tables_cache["capTable"] = [[int(x) for x in row] for row in __import__("nifty.cl", fromlist=["x"]).LinearOperator._capTable]
         i = rp["input"]
+        if i["cfg"] == "multi":
+            return self.multi_failure(i["expr"]) is not None
         if i["cfg"] == "blockdiag":
             r = C.Result(self.prop, ctx.tier, int(i.get("seed", 0)))
             self.blockdiag_oracle(C.Ctx(self.prop, ctx.tier, int(i.get("seed", 0))), r)
